@@ -22,6 +22,25 @@ def concretise(c, rnd):
         second_ref = rnd.choice(["#a", "^"])
         return (f'<svg>{r}<rect id="a" xy="#r|{c["d1"]} {g}" wh="2 1"/>'
                 f'<rect id="s" xy="{second_ref}|{c["d2"]} {g}" wh="1 3"/></svg>')
+    if f == "delta":
+        k = c["kind"]
+        v = (f'{q(c["a1"])} {q(c["a2"])}' if c["mode"] == "abs" else f'{c["a1"]}% {c["a2"]}%')
+        d = rnd.choice([f'dwh="{v}"', f'dw="{v.split()[0]}" dh="{v.split()[1]}"'])
+        pos = 'cxy="10 6"' if (c["anchor"] == "c" and rnd.random() < 0.5) else \
+            ('xy="10 6"' + ("" if c["anchor"] == "tl" else f' xy-loc="{c["anchor"]}"'))
+        return f'<svg><{k} id="s" {pos} wh="2 4" {d}/></svg>'
+    if f == "reusepos":
+        tk = c["tkind"]
+        w, h = q(c["w"]), q(c["h"])
+        tpl = {"rect": f'<rect id="t" wh="{w} {h}"/>', "circle": f'<circle id="t" r="{q(c["w"] / 2)}"/>',
+               "ellipse": f'<ellipse id="t" rx="{q(c["w"] / 2)}" ry="{q(c["h"] / 2)}"/>',
+               "g": f'<g id="t"><rect wh="{w} {h}"/></g>', "symbol": f'<symbol id="t"><rect wh="{w} {h}"/></symbol>'}[tk]
+        use = f'<reuse id="s" href="#t" x="{q(c["x"])}" y="{q(c["y"])}"/>'
+        if c["where"] == "specs":
+            return f"<svg><specs>{tpl}</specs>{use}</svg>"
+        if c["where"] == "inline-before":
+            return f"<svg>{tpl}{use}</svg>"
+        return f"<svg>{use}{tpl}</svg>"
     r = geom.ref_element(c["refkind"], c["ref"])
     ref = rnd.choice(["#r", "^"])
     k = c["kind"]
@@ -56,6 +75,22 @@ def concretise(c, rnd):
     raise ValueError(f)
 
 
+def instance_bbox(el, case):
+    """box of a reuse instance: a shape by its attributes, a group by its translate() applied to the template's box"""
+    import re
+    if el.name != "g":
+        return geom.el_bbox(el)
+    w, h = case["w"] / 4, case["h"] / 4
+    t = el.attrs.get("transform", "")
+    m = re.fullmatch(r"\s*translate\(\s*([-+0-9.eE]+)[ ,]+([-+0-9.eE]+)\s*\)\s*", t) if t else None
+    if not t:
+        return (0.0, 0.0, w, h)
+    if not m:
+        return None
+    x, y = float(m.group(1)), float(m.group(2))
+    return (x, y, x + w, y + h)
+
+
 def run(rep, tier, seed):
     rnd = random.Random(seed)
     rep.assumptions += ["reference boxes / sizes / gaps are drawn from a bounded grid of quarter units (negative values included)",
@@ -82,6 +117,14 @@ def run(rep, tier, seed):
         el = geom.find_by_id(resp["out"], "s")
         if el is None:
             return (f"rel:{form}:missing", "subject not in output")
+        if form == "reusepos":
+            bb = instance_bbox(el, c["case"])
+            if bb is None or not geom.box_close(bb, c["case"]["exp"]):
+                return ("rel:reusepos:geometry", f"instance rendered as {el.name} {dict(el.attrs)}; expected its box at "
+                                                 f"{ {k: v / 4 for k, v in c['case']['exp'].items()} }")
+            if "t" not in el.classes():
+                return ("rel:reusepos:class", f"instance lacks the target's id as class: {dict(el.attrs)}")
+            return None
         if not geom.box_close(geom.el_bbox(el), c["case"]["exp"]):
             return (f"rel:{form}:geometry", f"subject rendered as {el.name} {dict(el.attrs)}; the reference rules give box "
                                             f"{ {k: v / 4 for k, v in c['case']['exp'].items()} }")
